@@ -24,6 +24,6 @@ run_prop() {
   git -C /repo worktree remove --force "$wt"; rm -rf "/tmp/rg_build_$p"
 }
 export -f run_prop
-ls seeded | grep "^C" | cut -c1-3 | sort -u | xargs -P 6 -I{} bash -c 'run_prop {}'
+ls seeded | grep "^C" | cut -c1-3 | sort -u | grep -E "${RG_ONLY:-.}" | xargs -P 6 -I{} bash -c 'run_prop {}'
 git -C /repo worktree prune
 cat "$RG_OUT"/*.txt
